@@ -1176,7 +1176,7 @@ func H_Twin() {
 	ib := make([]byte, nb)
 	for i := 0; i < nb; i++ {
 		ia[i] = vrt.Byte(vrt.Name("a", i))
-		ib[i] = byte('a' + i) // fixed input for the second instance
+		ib[i] = ia[i] // the same input: same path, same shared cells under go test -race
 	}
 	var ta, tb []ref.LexTok
 	vrt.Twin(func() { _, ta, _ = hRun(ia, 2*nb+2) }, func() { _, tb, _ = hRun(ib, 2*nb+2) })
